@@ -2,6 +2,7 @@ package c12
 
 import (
 	"fmt"
+	"os"
 	"regexp"
 	"runtime"
 	"sort"
@@ -185,9 +186,24 @@ func provenDeadlock(unfinished int) (bool, string) {
 	return provenDeadlockOf(unfinished, "c12.RunThreadsCase.func", "c12.RunThreadsCase(")
 }
 
-// provenDeadlockOf is provenDeadlock for application goroutines recognised by appMarker (harnessMarker: the
-// frame of the harness goroutine that takes the dump).
+// provenDeadlockOf takes two dumps 30 ms apart: the state must be the proven-deadlock state in
+// both, with the same goroutines parked at the same places.
 func provenDeadlockOf(unfinished int, appMarker, harnessMarker string) (bool, string) {
+	ok1, why1 := deadlockState(unfinished, appMarker, harnessMarker)
+	if !ok1 {
+		return false, ""
+	}
+	time.Sleep(30 * time.Millisecond)
+	ok2, why2 := deadlockState(unfinished, appMarker, harnessMarker)
+	if !ok2 || why1 != why2 {
+		return false, ""
+	}
+	return true, why2
+}
+
+// deadlockState is the predicate on one dump, for application goroutines recognised by appMarker
+// (harnessMarker: the frame of the harness goroutine that takes the dump).
+func deadlockState(unfinished int, appMarker, harnessMarker string) (bool, string) {
 	if unfinished <= 0 {
 		return false, ""
 	}
@@ -195,7 +211,11 @@ func provenDeadlockOf(unfinished int, appMarker, harnessMarker string) (bool, st
 	n := runtime.Stack(buf, true)
 	blocks := strings.Split(string(buf[:n]), "\n\n")
 	parked := func(state string) bool {
-		for _, p := range []string{"chan receive", "chan send", "select", "sync.Mutex.Lock", "sync.RWMutex", "semacquire", "sync.Cond.Wait", "sync.WaitGroup.Wait"} {
+		// (plain "semacquire" is NOT in the list: it is the state of a goroutine waiting for a
+		// runtime-internal semaphore, e.g. one that wants to start a garbage collection while
+		// this very function has the world stopped for the dump - it holds whatever locks it
+		// held and runs on as soon as the dump is over)
+		for _, p := range []string{"chan receive", "chan send", "select", "sync.Mutex.Lock", "sync.RWMutex", "sync.Cond.Wait", "sync.WaitGroup.Wait"} {
 			if strings.HasPrefix(state, p) {
 				return true
 			}
@@ -225,15 +245,19 @@ func provenDeadlockOf(unfinished int, appMarker, harnessMarker string) (bool, st
 		case isApp:
 			apps++
 			where = append(where, "application thread: "+state+" in "+topDriverFrame(b))
+		case strings.Contains(b, "driver.(*Driver).runEngine"):
+			// (its "created by" line names runAsync, so this case comes first)
+			where = append(where, "engine goroutine: "+state+callChain(b))
 		case strings.Contains(b, "driver.(*Driver).runAsync"):
 			asyncSeen = true
-			where = append(where, "runAsync: "+state)
-		case strings.Contains(b, "driver.(*Driver).runEngine"):
-			where = append(where, "engine goroutine: "+state+" in "+topDriverFrame(b))
+			where = append(where, "runAsync: "+state+callChain(b))
 		}
 	}
 	// application threads of earlier deadlocked cases of this process are still parked
 	if apps == unfinished+leakedApps && asyncSeen {
+		if dir := os.Getenv("VERIF_DUMPDIR"); dir != "" {
+			os.WriteFile(fmt.Sprintf("%s/deadlock-%d-%d.txt", dir, os.Getpid(), time.Now().UnixNano()), buf[:n], 0o644)
+		}
 		sort.Strings(where)
 		return true, strings.Join(where, "; ")
 	}
@@ -242,6 +266,31 @@ func provenDeadlockOf(unfinished int, appMarker, harnessMarker string) (bool, st
 
 // leakedApps counts the application goroutines left parked by earlier deadlocked cases.
 var leakedApps int
+
+// callChain lists the innermost function names of a goroutine dump block (for a goroutine
+// parked on a lock: which lock, taken where).
+func callChain(block string) string {
+	var fns []string
+	for _, l := range strings.Split(block, "\n")[1:] {
+		if strings.HasPrefix(l, "\t") || l == "" {
+			continue
+		}
+		if i := strings.LastIndex(l, "("); i > 0 {
+			l = l[:i]
+		}
+		if i := strings.LastIndex(l, "/"); i >= 0 {
+			l = l[i+1:]
+		}
+		fns = append(fns, l)
+		if len(fns) == 6 {
+			break
+		}
+	}
+	if len(fns) <= 1 {
+		return ""
+	}
+	return " [" + strings.Join(fns, " < ") + "]"
+}
 
 func topDriverFrame(block string) string {
 	for _, l := range strings.Split(block, "\n") {
